@@ -33,3 +33,26 @@ fn dict_squash_explicit(n: u8) -> u8 {
     let _sq = d.squash();
     r
 }
+
+// dictionaries whose key set is decided by an argument: one distinct key, two adjacent keys, a key and zero
+fn dict_single_key(k: felt252, v: u8) -> u8 {
+    let mut d: Felt252Dict<u8> = Default::default();
+    d.insert(k, v);
+    let r = d.get(k);
+    d.insert(k, r / 2);
+    d.get(k) + r
+}
+
+fn dict_adjacent_keys(k: felt252, v: u8) -> u8 {
+    let mut d: Felt252Dict<u8> = Default::default();
+    d.insert(k, v);
+    d.insert(k + 1, v / 2);
+    d.get(k) / 2 + d.get(k + 1)
+}
+
+fn dict_key_and_zero(k: felt252, v: u8) -> u8 {
+    let mut d: Felt252Dict<u8> = Default::default();
+    d.insert(0, 1);
+    d.insert(k, v);
+    d.get(k) / 2 + d.get(0)
+}
